@@ -38,7 +38,7 @@ func genWordFile(t *rapid.T, label string, defs map[string]string, allowDefs boo
 			lines = append(lines, ragen.Line{K: ragen.KComment, T: " " + rapid.SampledFrom([]string{"tools", "shells cat", "x"}).Draw(t, label+"c")})
 		default:
 			w := rapid.SampledFrom(wordPool).Draw(t, label+"w")
-			switch rapid.IntRange(0, 7).Draw(t, label+"m") {
+			switch rapid.IntRange(0, 8).Draw(t, label+"m") {
 			case 0:
 				w += "@"
 			case 1:
@@ -47,6 +47,9 @@ func genWordFile(t *rapid.T, label string, defs map[string]string, allowDefs boo
 				if localDef != "" || len(defs) > 0 {
 					w += "{{w}}"
 				}
+			case 3:
+				// trailing white space is part of an entry: `cat ` is excluded by `cat `, not by `cat`
+				w += rapid.SampledFrom([]string{" ", " ", "\t"}).Draw(t, label+"tws")
 			}
 			ind := ""
 			if rapid.IntRange(0, 4).Draw(t, label+"ind") == 0 {
